@@ -1,5 +1,5 @@
 Require Extraction.
 Require Import ExtrOcamlBasic.
 Require Import BertE.Base.Anchors BertE.Model.Integration BertE.Spec.C19Spec.
-Extraction "../build/ocaml/C19/model.ml" anchor_types step run user_decline host_merged integration_gate
+Extraction "../build/ocaml/C19/model.ml" anchor_types step run evaluated_pr user_decline host_merged integration_gate
   one_to_one_b distinct_src_b well_formed_b no_user_w_b spec_after_decline.
